@@ -601,6 +601,7 @@ pub fn check_c17(src: &mut Src, prog: &[Stmt], out: &mut Vec<Failure>) -> bool {
     let all_stmts: Vec<String> = r0.program().stmts().iter().map(|s| format!("{s:?}")).collect();
     let diags0 = diag_list(&r0);
     let tops: Vec<&Span> = base.spans.iter().filter(|s| s.is_stmt && s.depth == 0).collect();
+    let mut prefixes: Vec<String> = vec![];
     for k in 1..tops.len() {
         let end_tok = tops[k - 1].end;
         if end_tok == 0 || end_tok > base.offsets.len() {
@@ -611,6 +612,34 @@ pub fn check_c17(src: &mut Src, prog: &[Stmt], out: &mut Vec<Failure>) -> bool {
         if base.toks[end_tok - 1].class == TC::Line {
             prefix.push('\n');
         }
+        prefixes.push(prefix);
+    }
+    // ... and the split point between the annotation lines of a top-level statement and the
+    // statement itself (the program then ends in annotations that have nothing to attach to)
+    for (k, t) in tops.iter().enumerate() {
+        if !matches!(prog.get(k), Some(Stmt::Annotated(..))) || tops.len() != prog.len() {
+            continue;
+        }
+        let start = base.offsets[t.start].0;
+        let rest = &base.text[start..];
+        let mut cut = 0usize;
+        loop {
+            let tail = &rest[cut..];
+            let lead = tail.len() - tail.trim_start().len();
+            if tail[lead..].starts_with('@') {
+                match tail[lead..].find('\n') {
+                    Some(nl) => cut += lead + nl + 1,
+                    None => break,
+                }
+            } else {
+                break;
+            }
+        }
+        if cut > 0 {
+            prefixes.push(base.text[..start + cut].to_string());
+        }
+    }
+    for prefix in prefixes {
         if !clean_parse(&prefix) {
             continue;
         }
